@@ -5,28 +5,30 @@ PROP = "C17"
 DRIVER = "drv_signals"
 LEAN_MODULES = ["MesaModel.Props.C17"]
 THEOREMS = ["Mesa.Computed." + t for t in (
-    "C17_no_stale_partial", "C17_define_fresh", "C17_clean_is_fresh", "C17_remembers_exactly_last_reads",
-    "C17_minimal_partial", "C17_cached_read_is_free", "C17_cycle_rejected", "C17_cycle_never_returns",
-    "C17_cycle_rejected_direct", "C17_cycle_record_per_evaluation", "C17_no_stale_refuted_with_reading_handler")]
+    "C17_no_stale_partial", "C17_define_fresh", "C17_raise_is_fresh", "C17_den_deterministic", "C17_clean_is_fresh",
+    "C17_failed_is_dirty", "C17_remembers_exactly_last_reads",
+    "C17_minimal", "C17_minimal_partial", "C17_read_leaves_clean_and_later_untouched", "C17_cached_read_is_free", "C17_cycle_rejected", "C17_cycle_never_returns",
+    "C17_cycle_rejected_direct", "C17_cycle_record_per_evaluation")]
 COUNTS = {"quick": 1500, "thorough": 150000}
 EXHAUSTIVE = {"thorough": True}
 TRUSTED = [
-    "a Computed's function is a read tree (what it returns depends only on the Observables / Computables it reads, in the "
-    "order it reads them); arbitrary Python side effects of such functions are not modelled (only assignments to Observables)",
+    "a Computed's function is a read tree (what it returns - or that it raises - depends only on the Observables / Computables "
+    "it reads, in the order it reads them); arbitrary Python side effects of such functions, and functions that catch the "
+    "exception of a Computable they read, are not modelled (only assignments to Observables)",
     "CPython dict / WeakKeyDictionary iteration order (insertion order) for the remembered parents",
     "CPython weakref: user handlers die when the harness drops its last strong reference; owners and Computeds stay alive "
     "for the whole scenario (garbage collection of owners is not modelled)",
-    "every Observable is assigned (0) before it is read; values are ints",
+    "every Observable is assigned (0) before it is read; values are ints or None",
 ]
 ASSUMPTIONS = [
     "Computed functions terminate and Computables are defined before they are read (a function reads only Computables defined earlier)",
-    "user handlers do not subscribe / unsubscribe / assign while being notified; they may read Computables (known finding G7)",
+    "user handlers do not subscribe / unsubscribe / assign while being notified; a handler subscribed to an Observable may read Computables (G7 repaired), a handler subscribed to a Computable is passive",
 ]
-RULE = ("random dependency structures: 1-2 owners, 2-4 Observables with values {0,1,2}, 1-3 Computables whose functions are "
+RULE = ("random dependency structures: 1-2 owners, 2-4 Observables with values {0,1,2,1000,1001,None}, 1-3 Computables whose functions (returning small ints or None) are "
         "random read trees of depth <= 3 that branch on what they read (so the set of Observables read switches), read earlier "
-        "Computables (chains) and - in 1/10 of the scenarios - assign Observables; 8-30 ops from assign (incl. restoring "
+        "Computables (chains), raise on some branches (2/12 of the scenarios) and - in 1/12 of the scenarios - assign Observables; 8-30 ops (going on after an operation raised) from assign (incl. restoring "
         "values), read, late definitions, user handlers observing Observables and Computables (in 1/10 of the scenarios the "
-        "handlers read Computables while notified); 4% directed cycle scenarios: a function reads x, then in any order assigns "
+        "handlers read Computables while notified); 4% directed raise scenarios (reads after a failed evaluation, through a chain, two owners with the read order of finding G12); 4% directed cycle scenarios: a function reads x, then in any order assigns "
         "other Observables, reads a (chain of) Computable(s) that recompute at that moment, reads; then assigns x - and "
         "assignments that are no cycle although an earlier evaluation read the key; non-trivial = at least two evaluations after the definitions and at "
         "least one read served from the cache")
@@ -53,21 +55,8 @@ def _has_progs(sc):
     return any(C.parse_header(sc.lines[0])[1].values())
 
 
-KNOWN = {
-    "G7": {
-        "scenario": [
-            "scenario comp 0.0.obs,0.1.comp 0:0",
-            "assign 0 0 1",
-            "define 0 0 1 ( read 0 0 ( ret 0 ) ( ret 10 ) ( ret 70 ) )",
-            "observe 0 0 0",
-            "assign 0 0 2",
-            "read 0",
-        ],
-        # a user handler read a Computable while being notified by Observable.__set__ (which stores afterwards)
-        # identified by its history: a stale / needless evaluation AFTER some handler read a Computable while notified
-        "matches": lambda sc, clause: clause.split(":")[0] in ("stale-after-handler-read", "needless-after-handler-read"),
-    },
-}
+KNOWN = {}     # G7 (a handler that reads a Computable while notified) is repaired; witness: corpus/C17/G7-*.ops
+
 
 def extra(ctx):
     """thorough: exhaustive small scope — all 200 depth-2 trees over two Observables (plus a chained Computable) x all
